@@ -161,7 +161,106 @@ func main() {
 	})
 }
 
+// concurrentClient: several goroutines use ONE client at the same time (the client
+// documents itself as safe for that: it serialises with a lock). The served agent
+// returns fixed values per operation kind, so every result has exactly one right value.
+func concurrentClient(r *ev.Run) {
+	n := r.Pick(40, 600)
+	for i := 0; i < n; i++ {
+		c := r.Case("concurrent-client", i)
+		if c == nil {
+			continue
+		}
+		r.Guard(c, "concurrent client", nil, func() {
+			k := gen.PickKey(c.Rand)
+			srv := &recAgent{keys: []*agent.Key{{Format: k.Pub.Type(), Blob: k.Pub.Marshal(), Comment: "fixed"}}, slots: []string{"9a", "9c"}, raw: []byte("fixed-forward-reply"),
+				sig: &ssh.Signature{Format: "ssh-ed25519", Blob: bytes.Repeat([]byte{7}, 64)}}
+			c1, c2, err := wire.SocketPair()
+			if err != nil {
+				return
+			}
+			defer c1.Close()
+			go func() { defer c2.Close(); defer func() { recover() }(); yubiagent.ServeAgent(srv, c2) }()
+			cl, _ := yubiagent.NewClientFromConn(c1)
+			var wg sync.WaitGroup
+			var mu sync.Mutex
+			var problems []string
+			note := func(s string) { mu.Lock(); problems = append(problems, s); mu.Unlock() }
+			ops := []func(){
+				func() {
+					got, err := cl.List()
+					if err != nil || len(got) != 1 || !bytes.Equal(got[0].Blob, k.Pub.Marshal()) || got[0].Comment != "fixed" {
+						note(fmt.Sprintf("list: err=%v n=%d", err, len(got)))
+					}
+				},
+				func() {
+					got, err := cl.ListSlots()
+					if err != nil || !reflect.DeepEqual(got, []string{"9a", "9c"}) {
+						note(fmt.Sprintf("list-slots: err=%v %q", err, got))
+					}
+				},
+				func() {
+					got, err := cl.Forward([]byte{200, 1, 2, 3})
+					if err != nil || string(got) != "fixed-forward-reply" {
+						note(fmt.Sprintf("forward: err=%v %q", err, got))
+					}
+				},
+				func() {
+					got, err := cl.Sign(k.Pub, []byte("data"))
+					if err != nil || got.Format != "ssh-ed25519" || len(got.Blob) != 64 {
+						note(fmt.Sprintf("sign: err=%v", err))
+					}
+				},
+				func() {
+					if err := cl.AddHardCert(k.Pub, "c"); err != nil {
+						note(fmt.Sprintf("add-hard-cert: err=%v", err))
+					}
+				},
+				func() {
+					if err := cl.Wait(77); err != nil {
+						note(fmt.Sprintf("wait: err=%v", err))
+					}
+				},
+			}
+			g := 2 + c.Rand.Intn(5)
+			start := make(chan struct{})
+			for j := 0; j < g; j++ {
+				seq := make([]int, 12)
+				for x := range seq {
+					seq[x] = c.Rand.Intn(len(ops))
+				}
+				wg.Add(1)
+				go func(seq []int) {
+					defer wg.Done()
+					<-start
+					for _, o := range seq {
+						ops[o]()
+					}
+				}(seq)
+			}
+			done := make(chan struct{})
+			go func() { wg.Wait(); close(done) }()
+			close(start)
+			select {
+			case <-done:
+			case <-time.After(ev.OpTimeout()):
+				c1.Close()
+				r.Violation(c, "concurrent-client-operations-do-not-complete", "operations issued from several goroutines on one client did not all return", nil)
+				return
+			}
+			r.Eval(g * 12)
+			if len(problems) > 0 {
+				r.Violation(c, "concurrent-client-result-mismatch:"+strings.SplitN(problems[0], ":", 2)[0], fmt.Sprintf("%d of %d operations got a result other than the served agent's fixed answer, e.g. %v", len(problems), g*12, problems[:min(3, len(problems))]), nil)
+				return
+			}
+			r.Count("operations issued concurrently on one client with matching results", g*12)
+			r.Nontrivial(fmt.Sprintf("concurrent:%d:%d", i, g))
+		})
+	}
+}
+
 func rigA(r *ev.Run) {
+	concurrentClient(r)
 	nseq := r.Pick(500, 15000)
 	var wg sync.WaitGroup
 	sem := make(chan struct{}, 8)
